@@ -12,8 +12,64 @@ a livelock.  Every step is logged as (thread, op, decision, |piece queue|, |hash
 """
 import collections
 import random
+import sys
 import threading as _t
 import types
+
+SPIN_AFTER = 4000        # jumps/branches in torf code without a synchronisation operation
+_MON_TOOL = 4
+_mon_installed = False
+
+
+def _code_objects(co):
+    yield co
+    for k in co.co_consts:
+        if isinstance(k, types.CodeType):
+            yield from _code_objects(k)
+
+
+def install_spin_monitor(modules):
+    """A busy wait on plain attributes (no queue/event/thread operation in the loop) would keep the
+    baton for ever.  Count the jumps and branches a controlled thread takes in torf's code since its
+    last operation and turn every SPIN_AFTER-th into an idle `spin` scheduling point — what
+    pre-emption does to such a loop on real threads."""
+    global _mon_installed
+    if _mon_installed or not hasattr(sys, 'monitoring'):
+        return
+    mon = sys.monitoring
+    try:
+        mon.use_tool_id(_MON_TOOL, 'torf-verif-spin')
+    except ValueError:
+        return
+    ev = mon.events.JUMP | mon.events.BRANCH
+
+    def hit(code, src, dst):
+        ct = getattr(_local, 'ct', None)
+        if ct is None or ct.pending is not None or ct.finished:
+            return
+        ct.spin += 1
+        if ct.spin >= SPIN_AFTER:
+            ct.spin = 0
+            ct.sched.yield_op(ct, 'spin:' + code.co_name, lambda: True, idle=True)
+            ct.sched.note_after(ct)
+
+    mon.register_callback(_MON_TOOL, mon.events.JUMP, hit)
+    mon.register_callback(_MON_TOOL, mon.events.BRANCH, hit)
+    for m in modules:
+        for v in list(vars(m).values()):
+            fns = []
+            if isinstance(v, types.FunctionType):
+                fns.append(v)
+            elif isinstance(v, type) and getattr(v, '__module__', None) == m.__name__:
+                for a in vars(v).values():
+                    a = getattr(a, 'fget', a)
+                    a = getattr(a, '__func__', a)
+                    if isinstance(a, types.FunctionType):
+                        fns.append(a)
+            for f in fns:
+                for co in _code_objects(f.__code__):
+                    mon.set_local_events(_MON_TOOL, co, ev)
+    _mon_installed = True
 
 
 class Deadlock(Exception):
@@ -46,6 +102,7 @@ class Sched:
 
     # ---- called by controlled threads
     def yield_op(self, ct, op, enabled, can_timeout=False, idle=False):
+        ct.spin = 0
         ct.pending = (op, enabled, can_timeout, idle)
         self.wake_sched.release()
         ct.sem.acquire()
@@ -141,6 +198,7 @@ class CT:
         self.finished = False
         self.exc = None
         self.last_entry = None
+        self.spin = 0
         self.first_park = _t.Event()
         self.real = _t.Thread(target=self._run, name='shim-' + name, daemon=True)
 
@@ -199,7 +257,9 @@ def make_shims(sched):
 
         def join(self, timeout=None):
             c = cur()
-            sched.yield_op(c, 'join:' + self.name, lambda: self._ct is None or self._ct.finished)
+            # join(timeout) returns silently when the timeout expires
+            sched.yield_op(c, 'join:' + self.name, lambda: self._ct is None or self._ct.finished,
+                           timeout is not None)
             sched.note_after(c)
 
     class Event:
@@ -237,13 +297,25 @@ def make_shims(sched):
 
         def put(self, item, block=True, timeout=None):
             c = cur()
-            sched.yield_op(c, self.tag + '.put', lambda: self.maxsize <= 0 or len(self.q) < self.maxsize)
+            room = lambda: self.maxsize <= 0 or len(self.q) < self.maxsize   # noqa: E731
+            if not block:
+                sched.yield_op(c, self.tag + '.put_nowait', lambda: True)
+                if not room():
+                    sched.note_after(c)
+                    raise Full
+            elif sched.yield_op(c, self.tag + '.put', room, timeout is not None) == 'timeout':
+                sched.note_after(c)
+                raise Full
             self.q.append(item)
             sched.note_after(c)
 
         def get(self, block=True, timeout=None):
             c = cur()
-            r = sched.yield_op(c, self.tag + '.get', lambda: len(self.q) > 0, timeout is not None)
+            if not block:
+                sched.yield_op(c, self.tag + '.get_nowait', lambda: True)
+                r = 'go' if self.q else 'timeout'
+            else:
+                r = sched.yield_op(c, self.tag + '.get', lambda: len(self.q) > 0, timeout is not None)
             if r == 'timeout':
                 sched.note_after(c)
                 raise Empty
